@@ -7,7 +7,7 @@ package main
 // reply: k {record}*  where record is the canonical serialisation of exactly the fields the
 // property lists:
 //
-//	seq name length moltype circular linear division date
+//	seq name length coding moltype circular linear division date
 //	definition accession version keywords source organism
 //	nrefs { index range authors title journal pubmed remark }*
 //	nother { key value }*            (sorted by key)
@@ -52,7 +52,7 @@ func c01pairs(m map[string]string) []string {
 
 func c01ser(s poly.Sequence) []string {
 	l := s.Meta.Locus
-	out := []string{s.Sequence, l.Name, l.SequenceLength, l.MoleculeType, c01bool(l.Circular), c01bool(l.Linear),
+	out := []string{s.Sequence, l.Name, l.SequenceLength, l.SequenceCoding, l.MoleculeType, c01bool(l.Circular), c01bool(l.Linear),
 		l.GenbankDivision, l.ModificationDate,
 		s.Meta.Definition, s.Meta.Accession, s.Meta.Version, s.Meta.Keywords, s.Meta.Source, s.Meta.Organism,
 		strconv.Itoa(len(s.Meta.References))}
